@@ -203,4 +203,103 @@ def sha512 (m : Bytes) : Bytes :=
   let st := (chunks 128 (mdPad 128 16 natToBytesBE m)).foldl (sha512Block k) sha512H0
   st.toList.flatMap (fun w => natToBytesBE 8 w.toNat)
 
+
+/-! ### MD4 (RFC 1320 §3): three rounds of 16 steps, `a = (a + f(b,c,d) + X[k] + const) <<< s` -/
+
+def md4K : Array Nat := #[
+  0, 1, 2, 3, 4, 5, 6, 7, 8, 9, 10, 11, 12, 13, 14, 15,
+  0, 4, 8, 12, 1, 5, 9, 13, 2, 6, 10, 14, 3, 7, 11, 15,
+  0, 8, 4, 12, 2, 10, 6, 14, 1, 9, 5, 13, 3, 11, 7, 15]
+
+def md4S : Array UInt32 := #[
+  3, 7, 11, 19, 3, 7, 11, 19, 3, 7, 11, 19, 3, 7, 11, 19,
+  3, 5, 9, 13, 3, 5, 9, 13, 3, 5, 9, 13, 3, 5, 9, 13,
+  3, 9, 11, 15, 3, 9, 11, 15, 3, 9, 11, 15, 3, 9, 11, 15]
+
+def md4Step (x : Array UInt32) (st : St4) (i : Nat) : St4 :=
+  let (f, c) : UInt32 × UInt32 :=
+    if i < 16 then ((st.b &&& st.c) ||| (~~~st.b &&& st.d), 0)
+    else if i < 32 then ((st.b &&& st.c) ||| (st.b &&& st.d) ||| (st.c &&& st.d), 0x5a827999)
+    else (st.b ^^^ st.c ^^^ st.d, 0x6ed9eba1)
+  let t := rotl32 (st.a + f + x[md4K[i]!]! + c) md4S[i]!
+  -- [abcd] -> [dabc]: the new value takes the place of a, then the roles rotate
+  { a := st.d, b := t, c := st.b, d := st.c }
+
+def md4Block (st : St4) (block : Bytes) : St4 :=
+  let x : Array UInt32 := ((chunks 4 block).map (fun w => UInt32.ofNat (bytesToNatLE w))).toArray
+  let r := (List.range 48).foldl (md4Step x) st
+  { a := st.a + r.a, b := st.b + r.b, c := st.c + r.c, d := st.d + r.d }
+
+def md4 (m : Bytes) : Bytes :=
+  let st := (chunks 64 (mdPad 64 8 natToBytesLE m)).foldl md4Block ⟨0x67452301, 0xefcdab89, 0x98badcfe, 0x10325476⟩
+  [st.a, st.b, st.c, st.d].flatMap (fun w => natToBytesLE 4 w.toNat)
+
+/-! ### SHA-3 (FIPS 202): Keccak-p[1600, 24], sponge with pad10*1 and domain suffix 01.
+    The state is 25 lanes of 64 bits, lane (x, y) at index x + 5y; a byte string maps to lanes
+    little endian (§3.1.2, B.1).  Rotation offsets (§3.2.2) and round constants (§3.2.5, the LFSR
+    rc(t)) are computed as the standard defines them. -/
+
+def rotl64 (x : UInt64) (n : Nat) : UInt64 :=
+  if n % 64 = 0 then x else (x <<< UInt64.ofNat (n % 64)) ||| (x >>> UInt64.ofNat (64 - n % 64))
+
+/-- §3.2.2 ρ: lane (1,0) gets offset 1·2/2, then (x,y) ← (y, 2x+3y) for t = 0..23 with offset (t+1)(t+2)/2 -/
+def keccakRho : Array Nat :=
+  let step := fun (acc : Array Nat × Nat × Nat) (t : Nat) =>
+    let (a, x, y) := acc
+    (a.set! (x + 5 * y) ((t + 1) * (t + 2) / 2 % 64), y, (2 * x + 3 * y) % 5)
+  ((List.range 24).foldl step (Array.replicate 25 0, 1, 0)).1
+
+/-- §3.2.5 Algorithm 5: rc(t), an LFSR over 8 bits (R as a number, R[0] = least significant bit) -/
+def keccakRcBit (t : Nat) : Bool :=
+  let step := fun (r : Nat) (_ : Nat) =>
+    -- R = 0 || R; R[0] ^= R[8]; R[4] ^= R[8]; R[5] ^= R[8]; R[6] ^= R[8]; R = Trunc8[R]
+    let r := r * 2
+    let r := if r / 256 % 2 == 1 then r ^^^ 0b01110001 else r
+    r % 256
+  (List.range (t % 255)).foldl step 1 % 2 == 1
+
+/-- RC[ir]: bit 2^j − 1 is rc(j + 7·ir), j = 0..6 -/
+def keccakRC (ir : Nat) : UInt64 :=
+  (List.range 7).foldl (fun acc j => if keccakRcBit (j + 7 * ir) then acc ||| ((1 : UInt64) <<< UInt64.ofNat (2 ^ j - 1)) else acc) 0
+
+def keccakRCs : Array UInt64 := (Array.range 24).map keccakRC
+
+def keccakRound (a : Array UInt64) (ir : Nat) : Array UInt64 :=
+  -- θ
+  let c := (Array.range 5).map (fun x => a[x]! ^^^ a[x + 5]! ^^^ a[x + 10]! ^^^ a[x + 15]! ^^^ a[x + 20]!)
+  let d := (Array.range 5).map (fun x => c[(x + 4) % 5]! ^^^ rotl64 c[(x + 1) % 5]! 1)
+  let a := (Array.range 25).map (fun i => a[i]! ^^^ d[i % 5]!)
+  -- ρ and π:  A'[y, 2x+3y] = rot(A[x, y])
+  let b := (List.range 25).foldl (fun (b : Array UInt64) i =>
+    let x := i % 5; let y := i / 5
+    b.set! (y + 5 * ((2 * x + 3 * y) % 5)) (rotl64 a[i]! keccakRho[i]!)) (Array.replicate 25 0)
+  -- χ
+  let a := (Array.range 25).map (fun i =>
+    let x := i % 5; let y := i / 5
+    b[i]! ^^^ (~~~ b[(x + 1) % 5 + 5 * y]! &&& b[(x + 2) % 5 + 5 * y]!))
+  -- ι
+  a.set! 0 (a[0]! ^^^ keccakRCs[ir]!)
+
+def keccakF (a : Array UInt64) : Array UInt64 := (List.range 24).foldl keccakRound a
+
+/-- absorb one rate-sized block -/
+def keccakAbsorb (st : Array UInt64) (block : Bytes) : Array UInt64 :=
+  let lanes := (chunks 8 block).map (fun w => UInt64.ofNat (bytesToNatLE w))
+  let st := (lanes.zipIdx).foldl (fun (st : Array UInt64) (p : UInt64 × Nat) => st.set! p.2 (st[p.2]! ^^^ p.1)) st
+  keccakF st
+
+/-- SHA3-d: capacity 2d, rate 1600 − 2d bits; message ‖ 01 ‖ pad10*1, byte-wise: 0x06 … 0x80 -/
+def sha3 (dBytes : Nat) (m : Bytes) : Bytes :=
+  let rate := 200 - 2 * dBytes
+  let padLen := rate - m.length % rate
+  let padded := if padLen = 1 then m ++ [0x86]
+    else m ++ [0x06] ++ List.replicate (padLen - 2) 0 ++ [0x80]
+  let st := (chunks rate padded).foldl keccakAbsorb (Array.replicate 25 0)
+  (st.toList.flatMap (fun w => natToBytesLE 8 w.toNat)).take dBytes
+
+def sha3_224 := sha3 28
+def sha3_256 := sha3 32
+def sha3_384 := sha3 48
+def sha3_512 := sha3 64
+
 end FqModel.Hash
